@@ -192,7 +192,7 @@ theorem merge_cancel_leaf {S : Schema} {o : MergeOpts} {s : Nat} (hleaf : S.isKi
 /-- If the first node has taken the instance `e` to `e1`, and the second node's operation fits `e1` (`create`: there is no
 instance; any other operation: there is one), the pair of operations is an accepted cell of the table. -/
 theorem merge_rejected_unreachable {S : Schema} {t src : DNode} {e e1 : Option DNode} {cop sop : Op}
-    (hcop : effOp none t = some cop) (hsop : effOp none src = some sop) (hT : termEff S none t e = some e1)
+    (hcop : effOp t none = some cop) (hsop : effOp src none = some sop) (hT : termEff S none t e = some e1)
     (hS : if sop = .create then e1 = none else e1.isSome = true) :
     (opCode sop, opCode cop) ∈ Generated.Diff13.mergeAccepted := by
   unfold termEff at hT
@@ -207,7 +207,7 @@ theorem merge_rejected_unreachable {S : Schema} {t src : DNode} {e e1 : Option D
 /-- A cell equation `cellEff … = seqEff …` at the instance the nodes address means: applying the node the merge produced (or
 nothing, when it was dropped) to a good sibling list gives the same list (up to `normN`) as applying the two nodes one after
 the other. -/
-theorem merge_cell_apply {S : Schema} (K : KeyOrder S) {o : MergeOpts} {L : List DNode} {t src m : DNode} {mv : Bool}
+theorem merge_cell_apply {S : Schema} {fx : Fixes} (K : KeyOrder S) {o : MergeOpts} {L : List DNode} {t src m : DNode} {mv : Bool}
     {sop cop : Op} {n : Nat} {hp : Bool} (hn : 0 < n) (hgL : goodT S L = true)
     (hleaf : S.isKind t.sid .leaf = true) (htt : t.isTerm = true) (hst : src.isTerm = true) (hss : src.sid = t.sid)
     (hk : S.isKey t.sid = false) (hkb : KeysBelow S t L)
@@ -215,8 +215,8 @@ theorem merge_cell_apply {S : Schema} (K : KeyOrder S) {o : MergeOpts} {L : List
     (hmt : (isRedundant S none m).1.isTerm = true) (hms : (isRedundant S none m).1.sid = t.sid)
     (hcell : cellEff S o sop t cop src (look S L t) = seqEff S t src (look S L t))
     (hseq : (seqEff S t src (look S L t)).isSome = true) :
-    ∃ L1 L2 L2', applyNode S n L hp none t = .ok L1 ∧ applyNode S n L1 hp none src = .ok L2 ∧
-      (if (isRedundant S none m).2 then Except.ok L else applyNode S n L hp none (isRedundant S none m).1) = .ok L2' ∧
+    ∃ L1 L2 L2', applyNode S fx n L hp none t = .ok L1 ∧ applyNode S fx n L1 hp none src = .ok L2 ∧
+      (if (isRedundant S none m).2 then Except.ok L else applyNode S fx n L hp none (isRedundant S none m).1) = .ok L2' ∧
       normL L2' = normL L2 := by
   have hdom : ∀ d : DNode, d.isTerm = true → d.sid = t.sid → Dom S d := fun d hd hs =>
     ⟨by rw [hs]; exact isUserOrd_of_leaf hleaf, by rw [hs]; exact isDupInst_of_leaf hleaf,
@@ -282,7 +282,7 @@ theorem merge_cell_apply {S : Schema} (K : KeyOrder S) {o : MergeOpts} {L : List
         exact ⟨L, ha1, ha2, rfl, hfin L hgL (fun _ _ _ => rfl) hcell⟩
 
 -- OPEN: `merge_apply_partial` — for good trees and exact diffs `D1` (for `A`, leading to `B`) and `D2` (for `B`, leading to `C`):
---   ∃ M C', mergeDiff o S D1 D2 = .ok M ∧ apply S A M = .ok C' ∧ dataEqL true C' C = true
+--   ∃ M C', mergeDiff o S D1 D2 = .ok M ∧ apply S A M fx = .ok C' ∧ dataEqL true C' C = true
 --   (under `o.defaults = true → Generated.Diff13.mergeDfltNeedsDeletedDflt = true`), and `merge_cancel` at tree level
 --   (`mergeDiff o S D (reverse D) = .ok []`).  Proved here: every leaf cell (`merge_cell_*`, `merge_cancel_leaf`), the link to
 --   `applyNode` (`merge_cell_apply`), the unreachability of the rejected cells, and the agreement of the table with the source
